@@ -259,6 +259,12 @@ def cross(a, b):
 
 
 def where(condition, x, y):
+    if x._bins is not None or y._bins is not None or condition._bins is not None:
+        from .bins import binned_where
+
+        if x.unit != y.unit:
+            raise UnitError(f'where: units differ {x.unit} vs {y.unit}')
+        return binned_where(condition, x, y)
     if condition.dtype != DType.bool:
         raise DTypeError('where: condition must be bool')
     if x.unit != y.unit:
